@@ -73,7 +73,7 @@ def rand_cmd(r, n, nids, nbodies, t, in_body, posts_left):
     return "X:%d" % r.randrange(nids)
 
 
-def rand_program(r):
+def rand_program(r, poll=False):
     n = r.choice([2, 2, 3])
     nids = r.choice([1, 1, 2])
     nbodies = r.choice([2, 3, 4])
@@ -86,7 +86,9 @@ def rand_program(r):
     for t in range(n):
         cmds = []
         for _ in range(r.choice([1, 2, 3, 4])):
-            if r.random() < 0.35:
+            if poll and r.random() < 0.15:
+                cmds.append("L")
+            elif r.random() < 0.35:
                 cmds.append("D:%d" % (1 if r.random() < 0.25 else 0))
             else:
                 cmds.append(rand_cmd(r, n, nids, nbodies, t, False, posts_left))
@@ -116,6 +118,27 @@ def corpus():
     return out
 
 
+def have_poll_hooks():
+    repo = os.environ.get("LTV_REPO", "/repo")
+    try:
+        return "poll_enter" in open(os.path.join(repo, "src/torrent/system/poll_epoll.cc")).read()
+    except OSError:
+        return False
+
+# poll handshake (needs hooks/c17b.patch): L = one Poll::do_poll pass
+HAND_POLL = [
+    # a normal callback posted after the target's process_callbacks pass and before it enters poll: do_interrupt is a
+    # no-op (not polling); poll() must see has_any_callbacks and not sleep the full timeout
+    ("2 1 / / D:0 L D:0 ; P:0:n:-:0", ["00" + "11" + "000" + "0" * 8, "0" + "11" + "0" + "000" + "0" * 8, "00" + "1" + "0" + "1" + "00" + "0" * 8]),
+    ("2 1 / / D:0 L D:0 ; P:0:n:0:0", ["00" + "1111" + "000" + "0" * 8, "00" + "11" + "0" + "11" + "00" + "0" * 8]),
+    ("2 1 / / D:0 L D:0 ; P:0:i:-:0", ["00" + "11" + "000" + "0" * 8]),
+    # post while the target IS polling: do_interrupt must set flag_interrupted
+    ("2 1 / / L D:0 ; P:0:n:-:0", ["00" + "11" + "0" + "0" * 8, "0" + "11" + "00" + "0" * 8]),
+    ("2 1 / / L L D:0 ; P:0:n:-:0 P:0:i:-:0", ["01" * 12, "0011" * 6]),
+]
+EXHAUSTIVE_POLL = ["2 1 / / D:0 L D:0 ; P:0:n:-:0", "2 1 / / L D:0 ; P:0:n:0:0"]
+
+
 def gen(seed, tier):
     """returns (cases, stats, enum_requests). enum_requests: [(program, limit)] to be expanded by the model's ENUM mode."""
     r = random.Random(seed)
@@ -124,18 +147,24 @@ def gen(seed, tier):
     for prog, scheds in HAND:
         for s in scheds:
             cases.append(prog + " / " + s)
+    poll = have_poll_hooks()
+    if poll:
+        for prog, scheds in HAND_POLL:
+            for sc in scheds:
+                cases.append(prog + " / " + sc)
     stats["hand"] = len(cases) - stats["corpus"]
+    stats["poll_hooks"] = poll
     nprog = 400 if tier == "quick" else 2500
     nsched = 12 if tier == "quick" else 24
     nrand = 0
     for _ in range(nprog):
-        prog, n = rand_program(r)
+        prog, n = rand_program(r, poll)
         for _ in range(nsched):
             cases.append(prog + " / " + rand_schedule(r, n, r.choice([10, 25, 40, 60])))
             nrand += 1
     stats["random_programs"] = nprog
     stats["random_cases"] = nrand
-    enum = [(p, 100000) for p in EXHAUSTIVE_QUICK]
+    enum = [(p, 100000) for p in EXHAUSTIVE_QUICK] + ([(p, 100000) for p in EXHAUSTIVE_POLL] if poll else [])
     if tier != "quick":
         enum += [(p, 60000) for p in EXHAUSTIVE_THOROUGH] + list(EXHAUSTIVE_PREFIX)
     return cases, stats, enum
